@@ -1069,6 +1069,17 @@ func (e *Env) evalFunc(f *FuncExpr) Value {
 		return h[:]
 	case "nextval":
 		return big.NewInt(ex.sess.nextval(ex.seqKey(text(a[0]))))
+	case "pg_sequence_last_value":
+		// System Information Functions (9.27): the last value written to disk by nextval / setval of ANY session, NULL if the
+		// sequence has not been used yet; non-transactional like the sequence itself
+		sq := ex.db.seqs[ex.seqKey(text(a[0]))]
+		if sq == nil {
+			panic(errf("42P01", "sequence %q does not exist", text(a[0])))
+		}
+		if !sq.isCalled {
+			return nil
+		}
+		return big.NewInt(sq.next)
 	case "setval":
 		if strict() {
 			return nil
